@@ -19,6 +19,9 @@ type work struct {
 	blk  *ssa.BasicBlock
 	prev *ssa.BasicBlock
 	idx  int
+	// resumed: the block's entry (phis / loop-header protocol) has already been done; execution resumes at idx
+	// (needed when idx is 0 anyway, i.e. a loop header without phi nodes)
+	resumed bool
 }
 
 type restartCut struct{ h loopKey }
@@ -61,7 +64,7 @@ func (e *Exec) execFunc(st *State, fn *ssa.Function, args []Val, bindings []Val,
 // runBlock executes instructions from w.idx in w.blk; returns follow-up work and/or an outcome.
 func (e *Exec) runBlock(w work) ([]work, *Outcome) {
 	st, fr, blk := w.st, w.fr, w.blk
-	if w.idx == 0 {
+	if w.idx == 0 && !w.resumed {
 		// loop header handling
 		if li := e.loops(fr.Fn); li.headers[blk] {
 			cont, extra := e.enterHeader(st, fr, blk, w.prev)
@@ -88,21 +91,21 @@ func (e *Exec) runBlock(w work) ([]work, *Outcome) {
 			c := e.val(st, fr, in.Cond).(*Term)
 			t, f := blk.Succs[0], blk.Succs[1]
 			if c.IsTrue() {
-				return []work{{st, fr, t, blk, 0}}, nil
+				return []work{{st, fr, t, blk, 0, false}}, nil
 			}
 			if c.IsFalse() {
-				return []work{{st, fr, f, blk, 0}}, nil
+				return []work{{st, fr, f, blk, 0, false}}, nil
 			}
 			if m := constFacts(st.PC); len(m) > 0 {
 				if c2 := e.C.Subst(c, m); c2.IsConst() {
 					if c2.IsTrue() {
-						return []work{{st, fr, t, blk, 0}}, nil
+						return []work{{st, fr, t, blk, 0, false}}, nil
 					}
-					return []work{{st, fr, f, blk, 0}}, nil
+					return []work{{st, fr, f, blk, 0, false}}, nil
 				}
 			}
 			if e.tryMergeTriangle(st, fr, blk, c) {
-				return []work{{st, fr, e.mergedJoin, blk, e.mergedIdx}}, nil
+				return []work{{st, fr, e.mergedJoin, blk, e.mergedIdx, true}}, nil
 			}
 			e.noteSymbolicBranch(fr, blk)
 			st2 := st.clone()
@@ -110,9 +113,9 @@ func (e *Exec) runBlock(w work) ([]work, *Outcome) {
 			st.assume(c)
 			st2.assume(e.C.Not(c))
 			// push false branch first so that true branch is explored first (DFS)
-			return []work{{st2, fr2, f, blk, 0}, {st, fr, t, blk, 0}}, nil
+			return []work{{st2, fr2, f, blk, 0, false}, {st, fr, t, blk, 0, false}}, nil
 		case *ssa.Jump:
-			return []work{{st, fr, blk.Succs[0], blk, 0}}, nil
+			return []work{{st, fr, blk.Succs[0], blk, 0, false}}, nil
 		case *ssa.Return:
 			res := make([]Val, len(in.Results))
 			for k, r := range in.Results {
@@ -132,7 +135,7 @@ func (e *Exec) runBlock(w work) ([]work, *Outcome) {
 			}
 			var ws []work
 			for _, s := range sts {
-				ws = append(ws, work{s.st, s.fr, blk, w.prev, i + 1})
+				ws = append(ws, work{s.st, s.fr, blk, w.prev, i + 1, false})
 			}
 			return ws, nil
 		case *ssa.Defer:
@@ -171,7 +174,7 @@ func (e *Exec) runBlock(w work) ([]work, *Outcome) {
 					f2 = fr.clone()
 				}
 				f2.Env[in] = r.v
-				ws = append(ws, work{r.st, f2, blk, w.prev, i + 1})
+				ws = append(ws, work{r.st, f2, blk, w.prev, i + 1, false})
 			}
 			return ws, nil
 		default:
@@ -179,7 +182,7 @@ func (e *Exec) runBlock(w work) ([]work, *Outcome) {
 			if forks != nil {
 				var ws []work
 				for k := len(forks) - 1; k >= 0; k-- {
-					ws = append(ws, work{forks[k].st, forks[k].fr, blk, w.prev, i + 1})
+					ws = append(ws, work{forks[k].st, forks[k].fr, blk, w.prev, i + 1, false})
 				}
 				return ws, nil
 			}
